@@ -4,7 +4,29 @@ from .attr_common import run_attr_property, replay_attr
 DEPS = {"C20": ["AttrThms.vo"], "C09": ["AttrThms.vo"], "C10": ["AttrThms.vo", "AttrThms2.vo"], "C11": ["AttrThms.vo", "gen/KernelsGen.vo"], "C06": ["AttrThms.vo"]}
 
 
+def kernel_scatter(ck):
+    """M2 of every backend (incl. the NumPy fallbacks run with a 2-segment gather chunk) = population variance of the per-segment cross products."""
+    from .. import kernels as K
+    n = 30 if ck.tier == "quick" else 400
+    for _ in range(n):
+        case = K.gen_case(ck.rng)
+        if len(case["starts"]) < 3:
+            case["starts"] = (case["starts"] * 5)[:5] if case["N"] == case["L"] else [ck.rng.randint(0, case["N"] - case["L"]) for _ in range(5)]
+        Q = K.build_Q(case)
+        for cross in (False, True):
+            d = K.definition(case, cross, Q)
+            for be in ("numba", "numpy", "numpy_chunk", "cuda"):
+                r, _ = K.run_impl(be, case, cross, Q)
+                amp, sc = K.budget(case, cross)
+                if not (abs(r[4] - d[4]) <= 4 * amp * sc[4]) or r[4] < 0:
+                    ck.violation("%s backend: M2=%r but the population variance of the per-segment cross products is %r (K=%d, L=%d, order=%d, %s)" %
+                                 (be, r[4], d[4], len(case["starts"]), case["L"], case["order"], "cross" if cross else "auto"),
+                                 dict(backend=be, cross=cross, L=case["L"], starts=case["starts"], order=case["order"], omega=case["omega"], kinds=case["kinds"]), tag="M2:" + be)
+
+
 def extra(ck):
+    if "C11" == "C11":
+        kernel_scatter(ck)
     if "C11" == "C06":
         bad, worst = O.sinusoid_calibration(ck.rng, 8 if ck.tier == "quick" else 80)
         for tag, what, inp in bad:
